@@ -110,6 +110,20 @@ def run(tier):
             j = wf.mk_single(jid, nb, stream=st, policy=pol, size=size, rseed=jid, tag="single nb=%d %s" % (nb, pol))
             sj.append(j)
             refs[jid] = r0["id"]
+    # streams whose period lines up with the read size (every Read delivers the same block again): still only the bytes count
+    for nb in (64, 256, 1280, 4096):
+        for per in (16, 64):
+            for content in ("rand", "const"):
+                period = [rng.randrange(256) for _ in range(per)] if content == "rand" else [rng.choice([0x00, 0xFF, 0x5A])] * per
+                st = {"kind": "periodic", "period": period, "len": -1}
+                jid += 1
+                r0 = wf.mk_single(jid, nb, stream=st, tag="single nb=%d aligned period %d full" % (nb, per))
+                sj.append(r0)
+                for pol, size in [("fixed", 16), ("fixed", 32), ("fixed", 64), ("straddle", 16), ("one", 0)]:
+                    jid += 1
+                    j = wf.mk_single(jid, nb, stream=st, policy=pol, size=size, rseed=jid, tag="single nb=%d aligned period %d %s/%d" % (nb, per, pol, size))
+                    sj.append(j)
+                    refs[jid] = r0["id"]
     rows, crashed = vlib.run_hz_jobs(hz, "workflow", sj, nproc=8)
     if crashed:
         for c in crashed:
